@@ -26,7 +26,7 @@ type c09Case struct {
 }
 
 const c09Rule = "case = well-formed IPFIX or NetFlow v9 message M (generator of C03/C06, templates pre-announced and/or in-message) + 0..3 undecodable sets U inserted at drawn positions (in 1 case of 20 also 15..65 small unknown-template sets): " +
-	"unknown template id with any body (random, zeros, or bytes that look like valid sets), reserved id 4..255 with any body, data for an announced template that names an element missing from the information model (also among its scope fields; also when that definition supersedes an earlier, fully known definition of the same id), data for a template that the message itself announces only later, data naming a template whose records cannot fit any set (field lengths summing beyond a datagram / beyond 16 bits); " +
+	"unknown template id with any body (random, zeros, or bytes that look like valid sets), reserved id 4..255 with any body, data for an announced template that names an element missing from the information model (also among its scope fields; also when that definition supersedes an earlier, fully known definition of the same id), data for a template that the message itself announces only later, data for an id named by a field-less template record after its announcement, data naming a template whose records cannot fit any set (field lengths summing beyond a datagram / beyond 16 bits); " +
 	"oracle (a) insertion: records(M+U) == records(M) and a non-empty unknown-template set is reported as an error; " +
 	"(b) truncation, enumerated for EVERY offset 0..len of M and of M+U against an identically prepared cache: records of the prefix (nil message = none) form a prefix of the full decode's records; " +
 	"non-trivial = the message carries >= 1 data record (so some offsets cut inside a record) ; label 'U-between-data-sets' marks the sandwich shape; distinct by hash"
@@ -127,12 +127,42 @@ func genC09(t *rapid.T, env *wire.GenEnv) c09Case {
 				}
 			}
 		}
-		kind := rapid.IntRange(0, 4).Draw(t, "inskind")
+		kind := rapid.IntRange(0, 5).Draw(t, "inskind")
+		if kind == 5 && c.Sc.Main.Proto != "ipfix" {
+			kind = 0
+		}
 		if kind == 3 && len(lates) == 0 {
 			kind = 0
 		}
 		switch kind {
-		case 4:
+		case 5:
+			// data for an id that was announced and then named by a field-less template record (followed by another
+			// template record in the same set): a collector without template withdrawal holds a template without
+			// fields for it, one with withdrawal has removed it — either way no record of it can be decoded and the
+			// neighbours must not notice
+			in.Kind = "withdrawn-template"
+			old := env.GenTemplate(t, freshID())
+			var m1, m2 wire.Msg
+			env.GenHeader(t, &m1)
+			env.GenHeader(t, &m2)
+			k1 := "tpl"
+			if old.Options {
+				k1 = "opt"
+			}
+			m1.Sets = []wire.Set{{Kind: k1, Tpls: []wire.Template{old}}}
+			other := env.GenTemplate(t, freshID())
+			for try := 0; other.Options && try < 8; try++ {
+				other = env.GenTemplate(t, other.ID)
+			}
+			other.Options = false
+			other.Scope = nil
+			if len(other.Fields) == 0 {
+				other.Fields = []wire.Field{{ID: 4, Len: 1, Type: wire.TUint8}}
+			}
+			m2.Sets = []wire.Set{{Kind: "tpl", Tpls: []wire.Template{{ID: old.ID}, other}}}
+			c.ExtraPre = append(c.ExtraPre, m1, m2)
+			oc := old
+			in.Set = env.GenDataSet(t, &oc, 3)
 			// data naming an announced template whose records cannot fit any set (field lengths summing to more than a
 			// datagram, also to more than 16 bits): nothing of it can be decoded, the neighbours must not notice
 			in.Kind = "oversized-template"
